@@ -306,6 +306,86 @@ def near(rng, op, ops, streams):
     return op
 
 
+def guided_keep_going(rng, draw, first_illegal, is_close, streams, maxlen=16, p_legal=0.7):
+    """A history that goes on after rejected calls.  Generated under the reading that a rejected call changes nothing:
+    'legal' is always relative to the calls the reference model accepted so far.  Ends with the first close the model accepts."""
+    ops, acc = [], []
+    for _ in range(maxlen):
+        cands = [near(rng, draw(rng), acc, streams) for _ in range(6)]
+        legal = [c for c in cands if first_illegal(acc + [c]) is None]
+        op = rng.choice(legal) if legal and rng.chance(p_legal) else rng.choice(cands)
+        if rng.chance(0.15):
+            op = [k for k in (["C"], ["CW"], ["CR"]) if is_close(k)][0]
+        ops.append(op)
+        if first_illegal(acc + [op]) is None:
+            acc.append(op)
+            if is_close(op):
+                break
+    return ops
+
+
+def judge_keep_going(ops, outcomes, first_illegal, is_close, who):
+    """outcomes[i]: True if call i returned normally, False if it raised.  Only 'must raise' is judged after the first
+    rejection: a call the model rejects (relative to the calls that were accepted by model *and* implementation) must raise;
+    a call the model accepts may be refused by an implementation that has seen an error before (not specified)."""
+    acc = []
+    for i, (op, ok) in enumerate(zip(ops, outcomes)):
+        illegal = first_illegal(acc + [op]) is not None
+        if illegal and ok:
+            what = "Close()" if is_close(op) else "call"
+            return "%s accepted %s #%d %s although it is out of order / steps are incomplete (calls accepted before: %s)" % (who, what, i, op, acc)
+        if ok and not illegal:
+            acc.append(op)
+            if is_close(op):
+                break
+    return ""
+
+
+def run_py_keep_going(model, proto, api, pyvals, data, ops, fmt="binary"):
+    """Executes every op, whatever the earlier ones did.  Returns [True (returned) | False (raised)]."""
+    out = []
+    if api == "writer":
+        w = model.cls(proto, fmt, "Writer")(P.SimSink() if fmt == "binary" else io.StringIO())
+        meths = model.step_methods(w, "write_")
+        for op in ops:
+            try:
+                if op[0] == "W":
+                    meths[op[1]](list(pyvals[op[1]]) if proto.steps[op[1]][2] else pyvals[op[1]])
+                else:
+                    w.close()
+                out.append(True)
+            except Exception:  # noqa
+                out.append(False)
+        return out
+    r = model.cls(proto, fmt, "Reader")(io.BytesIO(data) if fmt == "binary" else io.StringIO(data.decode("utf-8")))
+    meths = model.step_methods(r, "read_")
+    it = None
+    for op in ops:
+        try:
+            if op[0] == "R":
+                v = meths[op[1]]()
+                if proto.steps[op[1]][2]:
+                    it = iter(v)
+            elif op[0] == "N":
+                if it is not None:
+                    for _ in range(op[1]):
+                        next(it, None)
+            elif op[0] == "D":
+                if it is not None:
+                    for _ in it:
+                        pass
+                    it = None
+            elif op[0] == "A":
+                if it is not None and hasattr(it, "close"):
+                    it.close()
+            else:
+                r.close()
+            out.append(True)
+        except Exception:  # noqa
+            out.append(False)
+    return out
+
+
 def cpp_reader_first_illegal(streams, counts):
     def f(ops):
         verdicts, _ = cpp_reader_model(streams, counts, ops)
@@ -657,6 +737,25 @@ def model_task(task, ybin, root):
                     why = "the stream written does not decode: %r" % (e,)
                 if why:
                     viols.append(({"class": "stream_corrupt_after_failed_call", "api": "python_writer"}, doc(model, proto, task, "python_writer_failed_call", ops, counts, why)))
+            # histories that go on after a rejected call: whatever was refused before, an out-of-order call and a close() with
+            # steps missing must still raise
+            for h in range(4 if quick else 12):
+                hr = pr.fork("keepgoing", h)
+                kfmt = "ndjson" if hr.chance(0.3) else "binary"
+                ops = guided_keep_going(hr, draw_py_writer(streams), lambda o: py_writer_model(streams, o), lambda o: o[0] == "C", streams)
+                outc = run_py_keep_going(model, proto, "writer", pyvals, None, ops, kfmt)
+                stats["runs"] += 1
+                stats["py_history_continued_after_rejection"] = stats.get("py_history_continued_after_rejection", 0) + 1
+                why = judge_keep_going(ops, outc, lambda o: py_writer_model(streams, o), lambda o: o[0] == "C", "python writer")
+                if why:
+                    viols.append(({"class": "step_order_not_enforced_after_rejection", "api": "python_writer"}, dict(doc(model, proto, task, "python_writer_keep_going", ops, counts, why), format=kfmt)))
+                ops = guided_keep_going(hr.fork("r"), draw_py_reader(streams), lambda o: py_reader_model(streams, counts, o), lambda o: o[0] == "C", streams)
+                outc = run_py_keep_going(model, proto, "reader", None, data if kfmt == "binary" else ndraw, ops, kfmt)
+                stats["runs"] += 1
+                stats["py_history_continued_after_rejection"] += 1
+                why = judge_keep_going(ops, outc, lambda o: py_reader_model(streams, counts, o), lambda o: o[0] == "C", "python reader")
+                if why:
+                    viols.append(({"class": "step_order_not_enforced_after_rejection", "api": "python_reader"}, dict(doc(model, proto, task, "python_reader_keep_going", ops, counts, why), format=kfmt)))
             # reader on an input that ends early: some call must raise
             for h in range(2 if quick else 8):
                 hr = pr.fork("cut", h)
@@ -696,12 +795,23 @@ def model_task(task, ybin, root):
                     verdicts, expect = cpp_reader_model(streams, counts, ops)
                     runs.append({"proto": proto.name, "op": "script", "input": 0 if cfmt == "binary" else 1, "script": [["mkR", cfmt]] + ops, "fmt": cfmt})
                     meta.append(("cpp_reader", ops, verdicts, expect))
+                for h in range(8 if quick else 30):
+                    hr = pr.fork("ckeep", h)
+                    cfmt = "ndjson" if hr.chance(0.3) else "binary"
+                    ops = guided_keep_going(hr, draw_cpp_writer(streams), lambda o: cpp_writer_model(streams, o), lambda o: o[0] == "CW", streams)
+                    ops = [o for o in ops if not (o[0] in ("WB", "E") and not streams[o[1]])]
+                    runs.append({"proto": proto.name, "op": "script", "input": 0, "script": [["mkW", cfmt]] + ops, "fmt": cfmt, "keep_going": True})
+                    meta.append(("cpp_writer_keep_going", ops, None, None))
+                    ops = guided_keep_going(hr.fork("r"), draw_cpp_reader(streams), cpp_reader_first_illegal(streams, counts), lambda o: o[0] == "CR", streams)
+                    ops = [o for o in ops if not (o[0] == "RB" and not streams[o[1]])]
+                    runs.append({"proto": proto.name, "op": "script", "input": 0 if cfmt == "binary" else 1, "script": [["mkR", cfmt]] + ops, "fmt": cfmt, "keep_going": True})
+                    meta.append(("cpp_reader_keep_going", ops, None, None))
                 results = cm.run_plan([data, ndraw], runs, timeout=180)
                 for res, run_, (api, ops, exp, expect) in zip(results, runs, meta):
                     stats["runs"] += 1
-                    legal = (exp is None) if api == "cpp_writer" else all(v is not False for v in exp)
+                    legal = True if api.endswith("_keep_going") else ((exp is None) if api == "cpp_writer" else all(v is not False for v in exp))
                     stats[api + ("_legal" if legal else "_illegal")] = stats.get(api + ("_legal" if legal else "_illegal"), 0) + 1
-                    if api == "cpp_reader" and any(v == UNSPEC for v in exp):
+                    if api == "cpp_reader" and any(v == UNSPEC for v in exp):  # noqa
                         stats["cpp_reader_unspecified_transition(not judged)"] = stats.get("cpp_reader_unspecified_transition(not judged)", 0) + 1
                     if res is None:
                         continue
@@ -709,6 +819,16 @@ def model_task(task, ybin, root):
                         viols.append(({"class": "crashed_on_call_history", "api": api}, dict(doc(model, proto, task, api, ops, counts, res.get("stderr", "")[-300:]), format=run_["fmt"])))
                         continue
                     calls = res.get("calls", [])[1:]     # drop the constructor call
+                    if api.endswith("_keep_going"):
+                        stats["cpp_history_continued_after_rejection"] = stats.get("cpp_history_continued_after_rejection", 0) + 1
+                        outc = [c["r"] != "exc" for c in calls]
+                        if api == "cpp_writer_keep_going":
+                            why = judge_keep_going(ops, outc, lambda o: cpp_writer_model(streams, o), lambda o: o[0] == "CW", "cpp writer")
+                        else:
+                            why = judge_keep_going(ops, outc, cpp_reader_first_illegal(streams, counts), lambda o: o[0] == "CR", "cpp reader")
+                        if why:
+                            viols.append(({"class": "step_order_not_enforced_after_rejection", "api": api}, dict(doc(model, proto, task, api, ops, counts, why), format=run_["fmt"])))
+                        continue
                     if api == "cpp_writer":
                         got = next((j for j, c in enumerate(calls) if c["r"] == "exc"), None)
                         exc = calls[got].get("what") if got is not None else None
@@ -808,7 +928,7 @@ def main():
                assumptions=["a C++ stream step is left when its end has been observed: a single read returned false or a batch read came back short of its capacity",
                             "python: every step needs at least one write call; a stream's iterable must be drained before the next read; close() ends a trailing stream"],
                replay_fn=replay_doc, quick_budget=140,
-               fault_keys=("py_reader_early_eof", "py_writer_failed_impl_call", "cpp_reader_early_eof", "mut_swap", "mut_drop", "mut_dup", "mut_retarget", "mut_early_close", "mut_insert", "mut_back", "mut_guided", "mut_none"))
+               fault_keys=("py_reader_early_eof", "py_writer_failed_impl_call", "py_history_continued_after_rejection", "cpp_history_continued_after_rejection", "cpp_reader_early_eof", "mut_swap", "mut_drop", "mut_dup", "mut_retarget", "mut_early_close", "mut_insert", "mut_back", "mut_guided", "mut_none"))
 
 
 if __name__ == "__main__":
